@@ -155,7 +155,7 @@ int cmd_ranges(FILE *job, FILE *out) {
         free(t);
         free(line);
     }
-    run_opts o = {.chunk = chunk, .timeout_ms = 20000};
+    run_opts o = {.chunk = chunk, .timeout_ms = 20000, .confirm_hang = true};
     run_cases(c.n, run_one, &c, o, out);
     return 0;
 }
